@@ -20,6 +20,7 @@ type C13Case struct {
 	Target string  `json:"target"` // stack | cond
 	Kind   string  `json:"kind"`
 	Cap    int     `json:"cap"`
+	Amb    int     `json:"amb,omitempty"`
 	Ops    []C13Op `json:"ops"`
 }
 
@@ -167,7 +168,7 @@ func runC13(c C13Case) (st Stats, err error) {
 	var s stackage.Stack
 	m := &ListModel{Cap: c.Cap}
 	var classes []string // class of each stored element
-	if p := guard(func() { s = newStackOfKind(c.Kind, c.Cap) }); p != "" {
+	if p := guard(func() { s = newStackOfKind(c.Kind, c.Cap); ApplyAmbient(s, c.Amb&^AmbPushOK) }); p != "" {
 		return st, violf("setup/panic", "%s", p)
 	}
 	pushedStackWhileClear := false
@@ -282,6 +283,7 @@ func genC13(t *rapid.T, tier Tier) C13Case {
 	if rapid.IntRange(0, 3).Draw(t, "hascap") == 0 {
 		c.Cap = rapid.IntRange(1, 8).Draw(t, "cap")
 	}
+	c.Amb = drawAmbient(t, false)
 	n := rapid.IntRange(1, 20).Draw(t, "nops")
 	ops := []string{"push", "push", "push", "nonest", "nonest", "pop", "remove", "noise"}
 	for i := 0; i < n; i++ {
